@@ -5,15 +5,9 @@
 -/
 import DpapiNg.Model.Py
 import DpapiNg.Model.Time
-open DpapiNg
-
-def showR (r : R String) : String :=
-  match r with
-  | .ok s => "ok " ++ s
-  | .error e => "err " ++ e.name
-
-def nat? (s : String) : Option Nat := s.toNat?
-def int? (s : String) : Option Int := s.toInt?
+import DpapiNg.Drv.Common
+import DpapiNg.Drv.Asn1
+open DpapiNg DpapiNg.Drv
 
 def dispatch (toks : List String) : String :=
   match toks with
@@ -58,7 +52,10 @@ def dispatch (toks : List String) : String :=
     match nat? b, nat? e, nat? m with
     | some b, some e, some m => s!"ok {Py.powMod b e m}"
     | _, _, _ => "bad-op"
-  | _ => "bad-op"
+  | _ =>
+    match dispatchAsn1 toks with
+    | some r => r
+    | none => "bad-op"
 
 partial def loop (h : IO.FS.Stream) (out : IO.FS.Stream) : IO Unit := do
   let line ← h.getLine
